@@ -114,7 +114,7 @@ def _wasm_forbidden(exclude=()):
 
 def wasm_profile(exclude=(), **kw):
     base = dict(name="c23", ptr_bits=32, rotates=False, copyblob=False, global_refs=False, forbidden=_wasm_forbidden(exclude),
-                permute_blocks=True, max_funcs=3, max_blocks=8, distinct_cjmp_targets=True, obs_type="i64", literals=False, indirect_boost=2, observe_pct=60, swap_cjmp_arms=50, ptr_int_casts=False)
+                permute_blocks=True, max_funcs=3, max_blocks=8, distinct_cjmp_targets=True, obs_type="i64", literals=False, indirect_boost=2, observe_pct=60, swap_cjmp_arms=50, ptr_int_casts=False, nonfinite=True, nonfinite_args=True)
     base.update(kw)
     return genir.Profile(**base)
 
@@ -880,7 +880,7 @@ def full_profile(exclude=()):
     forb = [x for x in _wasm_forbidden(exclude) if x not in set(_wasm_forbidden(()))]
     if "KF8" in exclude:
         forb += [("cast", a, b) for a, b in sorted(_SAME_SIZE_SIGN)]
-    return genir.Profile(name="c23-full", ptr_bits=32, permute_blocks=True, obs_type="i64", indirect_boost=2, observe_pct=60, swap_cjmp_arms=50, ptr_int_casts=False, forbidden=forb)
+    return genir.Profile(name="c23-full", ptr_bits=32, permute_blocks=True, obs_type="i64", indirect_boost=2, observe_pct=60, swap_cjmp_arms=50, ptr_int_casts=False, forbidden=forb, nonfinite=True, nonfinite_args=True)
 
 
 def calls_for(draw, desc, profile):
@@ -985,7 +985,21 @@ def sweep_cases():
                 "e": [["const", "one", "i32", 1], ["const", "zero", "i32", 0], ["cjmp", "a", cond, "b", "y", "n"]],
                 "y": [["ret", "one"]],
                 "n": [["ret", "zero"]]})
-            cases.append(_sweep_case("cjmp:%s:%s" % (t, cond), [f], [["f0", p] for p in pairs]))
+            cpairs = pairs
+            if fl:
+                # comparisons are where NaN, the infinities and -0.0 matter: every ordered compare with a NaN is false
+                special = [genir.fhex(v) for v in (float("nan"), float("inf"), float("-inf"), -0.0)]
+                cpairs = pairs + [[a, b] for a in special for b in vals[:4] + special] + [[a, b] for a in vals[:4] for b in special]
+            cases.append(_sweep_case("cjmp:%s:%s" % (t, cond), [f], [["f0", p] for p in cpairs]))
+            # 'if' without else: one arm of the conditional jump IS the join block (the structured translation has an empty
+            # then- or else-arm and may be tempted to invert the condition)
+            for which in ("yes", "no"):
+                tgt = ("j", "o") if which == "yes" else ("o", "j")
+                f = _sweep_fn("f0", [["a", t], ["b", t]], "i32", {
+                    "e": [["const", "c5", "i32", 5], ["const", "c9", "i32", 9], ["store", "c5", "g0", False], ["cjmp", "a", cond, "b", tgt[0], tgt[1]]],
+                    "o": [["store", "c9", "g0", False], ["jmp", "j"]],
+                    "j": [["load", "x", "i32", "g0", False], ["ret", "x"]]})
+                cases.append(_sweep_case("cjmp-join-%s:%s:%s" % (which, t, cond), [f], [["f0", p] for p in cpairs]))
         for d in types:
             wd = _widen(d)
             tl = ([["cast", "y", wd, "x"], ["ret", "y"]] if wd != d else [["ret", "x"]])
